@@ -877,6 +877,190 @@ def assembler_held(R: Run, BlockAssembler):
                  "input blocks were modified by extract", sig="asm-input", trivial=True)
 
 
+
+# ------------------------------------------------------------------ mixed dtypes, lazy / faulting block mappings, two threads
+NUM_DTYPES = ["bool", "int8", "uint8", "int16", "uint16", "int32", "uint32", "int64", "uint64",
+              "float16", "float32", "float64", "complex64", "complex128"]
+
+
+def _extreme_values(dt, shape, rng):
+    """values that only survive in a dtype able to hold `dt` (extremes of the range, fractions, imaginary parts)"""
+    dt = np.dtype(dt)
+    n = int(np.prod(shape))
+    if dt.kind == "b":
+        vals = [True, False]
+    elif dt.kind in "iu":
+        ii = np.iinfo(dt)
+        vals = [ii.max, ii.min, ii.max - 1, ii.min + 1, 1, ii.max // 2 + 1, 3]
+    elif dt.kind == "f":
+        fi = np.finfo(dt)
+        vals = [float(fi.max), float(-fi.max), 1.5, -0.25, float(fi.tiny), 1 + float(fi.eps), 7.0]
+    else:
+        vals = [1 + 2j, -3.5j, 1e30 + 1j, 0.5 - 0.5j, 2.0]
+    out = [vals[(k + rng.randint(0, 2)) % len(vals)] for k in range(n)]
+    return np.array(out, dtype=dt).reshape(shape)
+
+
+def assembler_dtypes(R: Run, BlockAssembler):
+    """Blocks of different dtypes in one mosaic: every ordered pair of numpy numeric dtypes (and bool).  The result has
+    to have numpy's common type of the blocks (np.result_type) and every cell the value of its block converted to it."""
+    import itertools as it
+
+    rng = R.rng
+    for a, b in it.product(NUM_DTYPES, NUM_DTYPES):
+        chy, chx = (2,), (2, 3)
+        A, B = _extreme_values(a, (2, 2), rng), _extreme_values(b, (2, 3), rng)
+        third = rng.choice(NUM_DTYPES) if rng.random() < 0.3 else None
+        blocks = {(0, 0): A, (0, 1): B}
+        if third:
+            chy = (2, 1)
+            blocks[(1, 1)] = _extreme_values(third, (1, 3), rng)
+        case = {"dtypes": [a, b, third], "order": "as listed"}
+        want_dt = np.result_type(*[v.dtype for v in blocks.values()])
+        try:
+            asm = BlockAssembler(blocks, (chy, chx))
+            xx = asm.extract()
+        except Exception as e:  # pylint: disable=broad-except
+            R.oracle(False, "assembler-mixed-dtype-raises", case, f"{e!r}; numpy's common type is {want_dt}", sig="asm-dtype")
+            continue
+        ok = xx.dtype == want_dt and asm.dtype == want_dt
+        oy = [0, 2, 3]
+        ox = [0, 2, 5]
+        with np.errstate(all="ignore"):
+            for (iy, ix), blk in blocks.items():
+                got = xx[oy[iy]:oy[iy + 1], ox[ix]:ox[ix + 1]]
+                ok = ok and bool(np.array_equal(got, blk.astype(want_dt), equal_nan=True))
+                # and the value itself survived wherever the common type can hold it exactly
+                if want_dt.kind in "iub" and blk.dtype.kind in "iub":
+                    ok = ok and [int(v) for v in got.reshape(-1)] == [int(v) for v in blk.reshape(-1)]
+        R.oracle(ok, "assembler-mixed-dtype-wrong", case,
+                 f"result dtype {xx.dtype} (assembler says {asm.dtype}), numpy common type {want_dt}; cells {xx.tolist()}",
+                 sig=f"asm-dtype|{np.dtype(a).kind}{np.dtype(b).kind}")
+
+
+class _LazyBlocks:
+    """a Mapping that produces a block when asked; one chosen access can fail once or wait for an event"""
+
+    def __init__(self, blocks):
+        self._blocks = blocks
+        self.armed = False
+        self.fail_at = None      # n-th access (after arming) raises OSError once
+        self.pause_at = None     # n-th access (after arming) waits for `release` once
+        self.n = 0
+        import threading
+
+        self.waiting, self.release = threading.Event(), threading.Event()
+
+    def __getitem__(self, k):
+        if k not in self._blocks:
+            raise KeyError(k)
+        if self.armed:
+            self.n += 1
+            if self.fail_at == self.n:
+                self.fail_at = None
+                raise OSError(f"transient read error at access {self.n} (tile {k})")
+            if self.pause_at == self.n:
+                self.pause_at = None
+                self.waiting.set()
+                self.release.wait(timeout=10)
+        return self._blocks[k].copy()
+
+    def __iter__(self):
+        return iter(self._blocks)
+
+    def __len__(self):
+        return len(self._blocks)
+
+    def keys(self):
+        return self._blocks.keys()
+
+    def items(self):
+        for k in self._blocks:
+            yield k, self[k]
+
+    def values(self):
+        for k in self._blocks:
+            yield self[k]
+
+    def __contains__(self, k):
+        return k in self._blocks
+
+
+def assembler_lazy_and_threads(R: Run, BlockAssembler):
+    """(1) blocks behind a lazily loading Mapping with a transient fault at every possible access of the first extract:
+    the retried extract must be the mosaic window.  (2) a second thread extracts while the first one is parked at every
+    possible block access of its first extract: both must get the mosaic window."""
+    import threading
+    from collections.abc import Mapping
+
+    Mapping.register(_LazyBlocks)
+    rng = R.rng
+    for it in range(R.pick(12, 80)):
+        ty, tx = rng.randint(1, 3), rng.randint(2, 3)
+        chy = [rng.randint(1, 3) for _ in range(ty)]
+        chx = [rng.randint(1, 4) for _ in range(tx)]
+        NY, NX = sum(chy), sum(chx)
+        lead = rng.choice([[], [2]])
+        a = len(lead)
+        keys = [(iy, ix) for iy in range(ty) for ix in range(tx) if rng.random() < 0.75] or [(0, 0)]
+        blocks = {k: (cell_vals(100, k, lead, chy[k[0]], chx[k[1]], []) + 1).astype("int16") for k in keys}
+        oy = np.concatenate([[0], np.cumsum(chy)]).astype(int)
+        ox = np.concatenate([[0], np.cumsum(chx)]).astype(int)
+        FILL = -9
+        mosaic = np.full((*lead, NY, NX), FILL, dtype="int16")
+        for k, b in blocks.items():
+            mosaic[(*[slice(None)] * a, slice(oy[k[0]], oy[k[0] + 1]), slice(ox[k[1]], ox[k[1] + 1]))] = b
+        case = {"chy": chy, "chx": chx, "keys": keys, "lead": lead}
+        wins = [(slice(0, NY), slice(0, NX)), (slice(rng.randint(0, NY - 1), NY), slice(0, rng.randint(1, NX)))]
+
+        def want(win):
+            return mosaic[(*[slice(None)] * a, *win)]
+
+        # (1) transient fault at the n-th block access of the first extract, then retry
+        for n in range(1, len(keys) + 1):
+            lazy = _LazyBlocks(blocks)
+            try:
+                asm = BlockAssembler(lazy, (tuple(chy), tuple(chx)), axis=a)
+            except Exception as e:  # pylint: disable=broad-except
+                R.oracle(False, "assembler-raises", case, repr(e))
+                break
+            lazy.armed, lazy.fail_at = True, n
+            first = guarded(lambda: str(asm.extract(FILL, roi=wins[0]).shape))
+            for win in wins:
+                got = guarded(lambda: asm.extract(FILL, roi=win))
+                ok = isinstance(got, np.ndarray) and got.shape == want(win).shape and bool(np.array_equal(got, want(win)))
+                R.oracle(ok, "extract-after-fault-ne-mosaic", dict(case, fault_at_access=n, win=str(win)),
+                         f"first extract: {first}; retried extract differs from the mosaic window "
+                         f"({got if isinstance(got, str) else got.tolist()})", sig="asm-lazy")
+        # (2) thread 1 parked at the n-th access of its first extract while thread 2 extracts
+        for n in range(1, len(keys) + 1):
+            lazy = _LazyBlocks(blocks)
+            try:
+                asm = BlockAssembler(lazy, (tuple(chy), tuple(chx)), axis=a)
+            except Exception:  # pylint: disable=broad-except
+                break
+            lazy.armed, lazy.pause_at = True, n
+            out = {}
+
+            def worker(name, win):
+                out[name] = guarded(lambda: asm.extract(FILL, roi=win))
+
+            t1 = threading.Thread(target=worker, args=("t1", wins[0]))
+            t1.start()
+            lazy.waiting.wait(timeout=10)
+            t2 = threading.Thread(target=worker, args=("t2", wins[1]))
+            t2.start()
+            t2.join(timeout=10)
+            lazy.release.set()
+            t1.join(timeout=10)
+            for name, win in (("t1", wins[0]), ("t2", wins[1])):
+                got = out.get(name, "ERR:no-result")
+                ok = isinstance(got, np.ndarray) and got.shape == want(win).shape and bool(np.array_equal(got, want(win)))
+                R.oracle(ok, "concurrent-extract-ne-mosaic", dict(case, parked_at_access=n, thread=name, win=str(win)),
+                         f"thread {name} got {got if isinstance(got, str) else got.tolist()} instead of the mosaic window",
+                         sig="asm-threads")
+
+
 # ------------------------------------------------------------------ entry points
 def huge_stream(R: Run, Rm):
     """Tiles.__init__ used to divide in doubles (`int(math.ceil(float(N) / n))`): sizes around and far beyond
@@ -1006,6 +1190,8 @@ def run(R: Run):
     lift_and_geobox(R, Rm, GeoBox, GeoboxTiles)
     assembler(R, BlockAssembler)
     assembler_held(R, BlockAssembler)
+    assembler_dtypes(R, BlockAssembler)
+    assembler_lazy_and_threads(R, BlockAssembler)
     index_types_stream(R, Rm, GeoBox, GeoboxTiles)
     huge_stream(R, Rm)
     int32_edge_stream(R, Rm)
